@@ -114,6 +114,8 @@ def r1(ctx: Ctx) -> None:
                     sym = None  # identity test: the address is compared for equality only, its value never matters
             elif isinstance(node.func, ast.Name) and node.func.id in DYNAMIC:
                 sym, why = node.func.id, "dynamic code / namespace access"
+                if sym in ("setattr", "getattr", "hasattr") and node.args and isinstance(node.args[0], ast.Name) and node.args[0].id == "self":
+                    sym = None  # a field of the object itself, named by a value: no source of nondeterminism
             elif isinstance(node.func, ast.Name) and node.func.id == "open":
                 sym, why = "open", "file input"
             elif isinstance(node.func, ast.Attribute) and node.func.attr == "popitem":
@@ -289,6 +291,28 @@ def r3(ctx: Ctx) -> None:
                     first_iter = [c for c in ast.walk(f.node) if isinstance(c, (ast.For, ast.comprehension)) and isinstance(c.iter, ast.Name) and c.iter.id == name]
                     if sorts and all(s.lineno <= i.iter.lineno for s in sorts[:1] for i in first_iter):
                         ok, how = True, f"list sorted in place ({name}.sort) before any iteration"
+                    else:
+                        # every use of the list is itself insensitive to its order
+                        tgt_node = gp.targets[0] if isinstance(gp, ast.Assign) else gp.target
+                        uses = [u for u in ast.walk(f.node) if isinstance(u, ast.Name) and u.id == name and u is not tgt_node]
+                        bad_use = []
+                        for u in uses:
+                            if isinstance(u.ctx, ast.Store):
+                                bad_use.append(u)
+                                continue
+                            up = parents.get(id(u))
+                            if isinstance(up, ast.Compare) and u in up.comparators and all(isinstance(o, (ast.In, ast.NotIn)) for o in up.ops):
+                                continue
+                            if isinstance(up, ast.Call) and isinstance(up.func, ast.Name) and up.func.id in _ORDER_FREE_CONSUMERS and u in up.args:
+                                continue
+                            if isinstance(up, ast.comprehension) and up.iter is u:
+                                owner = parents.get(id(up))
+                                oc = parents.get(id(owner)) if owner is not None else None
+                                if isinstance(owner, (ast.GeneratorExp, ast.ListComp, ast.SetComp)) and isinstance(oc, ast.Call) and isinstance(oc.func, ast.Name) and oc.func.id in _ORDER_FREE_CONSUMERS and owner in oc.args:
+                                    continue
+                            bad_use.append(u)
+                        if uses and not bad_use:
+                            ok, how = True, f"{name} is only tested for membership or fed to sorted()/sum()/min()/max()"
             if not ok and f is not None and isinstance(par, (ast.Assign, ast.AnnAssign)) and par.value is node:
                 tg = par.targets[0] if isinstance(par, ast.Assign) and len(par.targets) == 1 else (par.target if isinstance(par, ast.AnnAssign) else None)
                 if isinstance(tg, ast.Name):
